@@ -259,7 +259,14 @@ structure ISt where
   pos : Nat
   frames : List Frame
   out : List Res
+  /-- instrumentation only: for every `find_local_decl` call its position and the open scopes
+  (kind, start; innermost first) — compared with `find_scope` on the ranged scope tree, `Model/ScopeRange` -/
+  trace : List (Nat × List (Kind × Nat)) := []
   deriving Inhabited
+
+/-- record a `find_local_decl` call at position `p` -/
+def ISt.logLookup (s : ISt) (p : Nat) : ISt :=
+  { s with trace := (p, s.frames.map fun f => (f.kind, f.start)) :: s.trace }
 
 def ISt.skip (s : ISt) (tokens : Nat) : ISt := { s with pos := s.pos + 2 * tokens }
 
@@ -292,7 +299,7 @@ def ISt.addImplicitSelf (s : ISt) (colon : Bool) (p : Nat) : ISt :=
 
 /-- `analyze_name_expr` on a name that is not itself a fresh global declaration -/
 def ISt.use (s : ISt) (n : Name) : ISt :=
-  { s with pos := s.pos + 2, out := (s.pos, localOf (findDecl s.frames n s.pos)) :: s.out }
+  { s.logLookup s.pos with pos := s.pos + 2, out := (s.pos, localOf (findDecl s.frames n s.pos)) :: s.out }
 
 /-- a name token whose global declaration was created by its own statement (`get_decl(position)` hits) -/
 def ISt.useSelf (s : ISt) : ISt := { s with pos := s.pos + 2, out := (s.pos, none) :: s.out }
@@ -309,9 +316,9 @@ def ISt.declareGlobals (s : ISt) (p : Nat) : List Name → ISt × List Bool
   | [] => (s, [])
   | v :: vs =>
     match findDecl s.frames v p with
-    | some _ => let r := ISt.declareGlobals s (p + 2) vs; (r.1, false :: r.2)
+    | some _ => let r := ISt.declareGlobals (s.logLookup p) (p + 2) vs; (r.1, false :: r.2)
     | none =>
-      let r := ISt.declareGlobals (s.addDecl { name := v, pos := p, isLocal := false }) (p + 2) vs
+      let r := ISt.declareGlobals ((s.logLookup p).addDecl { name := v, pos := p, isLocal := false }) (p + 2) vs
       (r.1, true :: r.2)
 
 /-- the `NameExpr` children of an assignment's left-hand side -/
